@@ -153,3 +153,127 @@ theorem call_order (fuel : Nat) (recv : Option Expr) (m : Main) (a : Add) (ca : 
   | _ => simp at h
 
 end Pangaea.C08
+
+namespace Pangaea.C08
+open Pangaea.Core Pangaea.C07
+
+/-- **Order of an infix operator.** Whenever `l op r` (op not `&&` / `||`) ends with a value, the left operand was
+    evaluated first, the right operand in the state the left one left, and only then the operator's method was
+    called - each exactly once. -/
+theorem infix_order (fuel : Nat) (op : String) (l r : Expr) (env : Nat) (s s' : St) (v : Val)
+    (hop : (op == "||" || op == "&&") = false)
+    (h : evalE (fuel + 1) (.infix op l r) env s = (.ok v, s')) :
+    ∃ vl s1 vr s2,
+      evalE fuel l env s = (.ok vl, s1) ∧ evalE fuel r env s1 = (.ok vr, s2) ∧
+      callPropQuiet fuel vl op [vr] env s2 = (.ok v, s') := by
+  rw [evalE] at h
+  simp only [hop, Bool.false_eq_true, ↓reduceIte] at h
+  unfold bindM at h
+  rcases h0 : evalE fuel l env s with ⟨r0, s1⟩
+  rw [h0] at h
+  cases r0 with
+  | ok vl =>
+    simp only at h
+    rcases h1 : evalE fuel r env s1 with ⟨r1, s2⟩
+    rw [h1] at h
+    cases r1 with
+    | ok vr => simp only at h; exact ⟨vl, s1, vr, s2, rfl, h1, h⟩
+    | _ => simp at h
+  | _ => simp at h
+
+/-- **Order of a range literal.** start, then stop, then step - each bound that is written evaluated once, each in
+    the state the previous one left. -/
+theorem range_order (fuel : Nat) (a b c : Option Expr) (env : Nat) (s s' : St) (v : Val)
+    (h : evalE (fuel + 1) (.range a b c) env s = (.ok v, s')) :
+    ∃ va s1 vb s2 vc,
+      evalOpt fuel a env s = (.ok va, s1) ∧ evalOpt fuel b env s1 = (.ok vb, s2) ∧ evalOpt fuel c env s2 = (.ok vc, s') ∧
+      v = .range va vb vc := by
+  cases a <;> cases b <;> cases c <;>
+  · rw [evalE] at h
+    unfold bindM at h
+    rcases h0 : evalOpt fuel _ env s with ⟨r0, s1⟩
+    rw [h0] at h
+    cases r0 with
+    | ok va =>
+      simp only at h
+      rcases h1 : evalOpt fuel _ env s1 with ⟨r1, s2⟩
+      rw [h1] at h
+      cases r1 with
+      | ok vb =>
+        simp only at h
+        rcases h2 : evalOpt fuel _ env s2 with ⟨r2, s3⟩
+        rw [h2] at h
+        cases r2 with
+        | ok vc =>
+          simp [pureM] at h
+          obtain ⟨rfl, rfl⟩ := h
+          exact ⟨va, s1, vb, s2, vc, rfl, h1, h2, rfl⟩
+        | _ => simp at h
+      | _ => simp at h
+    | _ => simp at h
+
+end Pangaea.C08
+
+namespace Pangaea.C08
+open Pangaea.Core Pangaea.C07
+
+/-- keyword arguments: evaluated one after the other in the order written, each exactly once; a name that occurs
+    again does not replace the value already bound (`addFirst`: the first occurrence wins) -/
+inductive SeqKws (env : Nat) : List KwE → List (String × Val) → St → List (String × Val) → St → Prop
+  | nil (acc : List (String × Val)) (s : St) : SeqKws env [] acc s acc s
+  | cons {name : String} {e : Expr} {rest : List KwE} {acc res : List (String × Val)} {s s1 s2 : St} {v : Val} :
+      GivesE e env s v s1 → SeqKws env rest (addFirst acc name v) s1 res s2 → SeqKws env (.mk name e :: rest) acc s res s2
+
+theorem evalKws_lift {f g : Nat} {kws : List KwE} {env : Nat} {acc : List (String × Val)} {s s' : St} {r : R (List (String × Val))}
+    (h : evalKws f kws env acc s = (r, s')) (hr : r.notFuel) (hfg : f ≤ g) : evalKws g kws env acc s = (r, s') := by
+  obtain ⟨k, rfl⟩ := Nat.exists_eq_add_of_le hfg
+  induction k with
+  | zero => exact h
+  | succ k ih => exact (allLe (f + k)).evalKws kws env acc s r s' (ih (Nat.le_add_right _ _)) hr
+
+theorem kws_of_seq {env : Nat} {kws : List KwE} {acc res : List (String × Val)} {s s' : St} (h : SeqKws env kws acc s res s') :
+    ∃ fuel, evalKws fuel kws env acc s = (.ok res, s') := by
+  induction h with
+  | nil acc s => exact ⟨1, by simp [evalKws, pureM]⟩
+  | @cons name e rest acc res s s1 s2 v hv _ ih =>
+    obtain ⟨f, hf⟩ := hv
+    obtain ⟨g, hg⟩ := ih
+    have h1 := evalE_lift hf (by simp [R.notFuel]) (Nat.le_max_left f g)
+    have h2 := evalKws_lift hg (by simp [R.notFuel]) (Nat.le_max_right f g)
+    exact ⟨max f g + 1, by rw [evalKws]; simp [bindM, h1, h2]⟩
+
+theorem seq_of_kws {env : Nat} : ∀ (kws : List KwE) (f : Nat) (acc res : List (String × Val)) (s s' : St),
+    evalKws f kws env acc s = (.ok res, s') → SeqKws env kws acc s res s' := by
+  intro kws
+  induction kws with
+  | nil =>
+    intro f acc res s s' h
+    cases f with
+    | zero => simp [evalKws, outOfFuel] at h
+    | succ f => simp [evalKws, pureM] at h; obtain ⟨rfl, rfl⟩ := h; exact .nil _ _
+  | cons kw rest ih =>
+    intro f acc res s s' h
+    obtain ⟨name, e⟩ := kw
+    cases f with
+    | zero => simp [evalKws, outOfFuel] at h
+    | succ f =>
+      rw [evalKws] at h
+      simp only [bindM] at h
+      cases hev : evalE f e env s with
+      | mk r0 s1 =>
+        rw [hev] at h
+        cases r0 with
+        | ok v => simp only at h; exact .cons ⟨f, hev⟩ (ih f _ res s1 s' h)
+        | _ => simp at h
+
+/-- **Keyword arguments are evaluated in the order written, each once, first occurrence wins.** -/
+theorem kwargs_in_order_written (kws : List KwE) (env : Nat) (acc res : List (String × Val)) (s s' : St) :
+    (∃ fuel, evalKws fuel kws env acc s = (.ok res, s')) ↔ SeqKws env kws acc s res s' :=
+  ⟨fun ⟨f, hf⟩ => seq_of_kws kws f acc res s s' hf, kws_of_seq⟩
+
+/-- a duplicated keyword keeps the value written first: once a name is bound, a later occurrence changes nothing -/
+theorem duplicate_keyword_first_wins (acc : List (String × Val)) (name : String) (v w : Val)
+    (h : acc.lookup name = some v) : addFirst acc name w = acc := by
+  unfold addFirst; simp [h]
+
+end Pangaea.C08
